@@ -51,8 +51,11 @@ SignerClass(st, e) ==
   ELSE IF e.act # "SetRoutingRules" /\ <<e.name, e.signer>> \in st.relayers THEN "relayerOfThisChain"
   ELSE IF \E x \in st.relayers : x[2] = e.signer THEN "relayerOfOtherChain"
   ELSE "plainAccount"
+\* "mixedcons": a decodable client state of type e.ctype accompanied by a consensus state of the type the stored client
+\* has (the message does not relate the two); decided exactly like "valid"
+Decodable(e) == e.payload \in {"valid", "mixedcons"}
 PayloadClass(st, e) ==
-  IF e.payload # "valid" THEN "undecodable"
+  IF ~Decodable(e) THEN "undecodable"
   ELSE IF ~HasClient(st, e.name) THEN "valid_no_client"
   ELSE IF TypeOf(st, e.name) = e.ctype THEN "valid_same_type" ELSE "valid_other_type"
 
@@ -61,13 +64,13 @@ Accept(st2)     == [ok |-> TRUE,  st |-> st2, why |-> ""]
 
 CreateRes(st, e, h) ==
   IF ~Authorised(e) THEN Refuse(st, "unauthorised")
-  ELSE IF e.payload # "valid" THEN Refuse(st, "undecodable")
+  ELSE IF ~Decodable(e) THEN Refuse(st, "undecodable")
   ELSE IF HasClient(st, e.name) THEN Refuse(st, "client_exists")
   ELSE Accept(SetClient(st, e.name, e.ctype, h))
 
 UpgradeRes(st, e, h) ==
   IF ~Authorised(e) THEN Refuse(st, "unauthorised")
-  ELSE IF e.payload # "valid" THEN Refuse(st, "undecodable")
+  ELSE IF ~Decodable(e) THEN Refuse(st, "undecodable")
   ELSE IF ~HasClient(st, e.name) THEN Refuse(st, "no_client")
   ELSE IF TypeOf(st, e.name) # e.ctype THEN Refuse(st, "type_mismatch")
   ELSE Accept(SetClient(st, e.name, e.ctype, h))
